@@ -655,6 +655,7 @@ CONSTANTS = [
     ("integer/src/mul/toom_3.rs", "MIN_LEN", "toom3_MIN_LEN"),
     ("integer/src/mul/simple.rs", "CHUNK_LEN", "mul_simple_CHUNK_LEN"),
     ("integer/src/div/mod.rs", "THRESHOLD_SIMPLE", "div_THRESHOLD_SIMPLE"),
+    ("integer/src/sqr/mod.rs", "MAX_LEN_SIMPLE", "sqr_MAX_LEN_SIMPLE"),
 ]
 
 
